@@ -99,7 +99,7 @@ var registry = []*HarnessSpec{
 	{Prop: "C04", Name: "zzH08a", Pkg: pkgCorerad, Tier: "quick", Bounds: "final RA path"},
 	{Prop: "C04", Name: "zzH04seq", Pkg: pkgCorerad, Tier: "quick", Bounds: "two consecutive sends with independently symbolic forwarding reads"},
 	{Prop: "C08", Name: "zzH08a", Pkg: pkgCorerad, Tier: "quick", Bounds: "one shutdown call: terminate/reload, unicast_only, forwarding, write failure symbolic"},
-	{Prop: "C09", Name: "zzH09a", Pkg: pkgCorerad, Tier: "quick", Params: map[string]int{"k": 20, "k@thorough": 48}, Bounds: "0..k-1 consecutive messages with any hop limit != 255 followed by a valid one (k=20, thorough 48)"},
+	{Prop: "C09", Name: "zzH09a", Pkg: pkgCorerad, Tier: "quick", Unwind: 256, Params: map[string]int{"k": 20, "k@thorough": 48}, Bounds: "0..k-1 consecutive messages with any hop limit != 255 followed by a valid one (k=20, thorough 48)"},
 	{Prop: "C10", Name: "zzH10c", Pkg: pkgCorerad, Tier: "quick", Bounds: "0..6 read timeouts followed by a message, a non-timeout net.Error or another error"},
 	{Prop: "C18", Name: "zzH18", Pkg: pkgCorerad, Tier: "quick", Params: map[string]int{"prefixes": 2, "prefixes@thorough": 4}, Bounds: "one message: RS/NS/NA or an RA with symbolic header, 0..2 (thorough 0..4) prefix options (all fields symbolic, whole-second lifetimes incl. 0 and 2^32-1 s) and an unknown option; receipt instant any wall-clock ns value; sender an opaque string"},
 	{Prop: "C18", Name: "zzH18label", Pkg: pkgCorerad, Tier: "quick", Bounds: "cidrStr / prefixStr / routeStr on 6 concrete prefixes, boolFloat"},
